@@ -10,7 +10,6 @@ spec fn nfa_tree<V>(n: NfaBuilder<u8, V>) -> bool {
             2 <= nfa_edges(n, s)[c] < len && s < nfa_edges(n, s)[c]
     &&& forall|t: int| 2 <= t < len ==> nfa_parent_ok(n, t, #[trigger] nfa_parent(n, t))
     &&& forall|s: int| 0 <= s < len ==> (#[trigger] n.states@[s]).fail < len
-    &&& forall|s: int| 0 <= s < len ==> #[trigger] nfa_edges(n, s).dom().finite()
 }
 // witness of "every state >= 2 has a parent" (the edge that created it)
 spec fn nfa_parent<V>(n: NfaBuilder<u8, V>, t: int) -> (int, u8) {
@@ -18,4 +17,37 @@ spec fn nfa_parent<V>(n: NfaBuilder<u8, V>, t: int) -> (int, u8) {
 }
 spec fn nfa_parent_ok<V>(n: NfaBuilder<u8, V>, t: int, p: (int, u8)) -> bool {
     0 <= p.0 < t && p.0 != 1 && nfa_edges(n, p.0).contains_key(p.1) && nfa_edges(n, p.0)[p.1] == t
+}
+
+// every state below the root is placed once the work list is empty
+proof fn lemma_all_placed<V>(n: NfaBuilder<u8, V>, map: Seq<u32>, done: Set<int>, t: int)
+    requires
+        nfa_tree(n), map.len() == n.states@.len(), map[0] != 1,
+        forall|s: int| 0 <= s < map.len() && s != 1 && #[trigger] map[s] != 1 ==> done.contains(s),
+        forall|s: int, c: u8| done.contains(s) && #[trigger] nfa_edges(n, s).contains_key(c) ==> 0 <= s < map.len() && map[nfa_edges(n, s)[c] as int] != 1,
+        0 <= t < map.len(), t != 1,
+    ensures map[t] != 1,
+    decreases t,
+{
+    if t >= 2 {
+        let p = nfa_parent(n, t);
+        assert(nfa_parent_ok(n, t, p));
+        lemma_all_placed(n, map, done, p.0);
+        assert(done.contains(p.0));
+        assert(nfa_edges(n, p.0).contains_key(p.1));
+    }
+}
+
+// the (key, value) pairs delivered by BTreeMap::iter have pairwise distinct keys
+proof fn lemma_iter_keys_distinct(m: Map<u8, u32>, rem: Seq<(&u8, &u32)>)
+    requires rem.no_duplicates(),
+        forall|i: int| 0 <= i < rem.len() ==> m.contains_key(*(#[trigger] rem[i]).0) && m[*rem[i].0] == *rem[i].1,
+    ensures forall|i: int, j: int| 0 <= i < rem.len() && 0 <= j < rem.len() && i != j ==> *(#[trigger] rem[i]).0 != *(#[trigger] rem[j]).0,
+{
+    assert forall|i: int, j: int| 0 <= i < rem.len() && 0 <= j < rem.len() && i != j implies *(#[trigger] rem[i]).0 != *(#[trigger] rem[j]).0 by {
+        if *rem[i].0 == *rem[j].0 {
+            assert(*rem[i].1 == *rem[j].1);
+            assert(rem[i] == rem[j]);
+        }
+    }
 }
